@@ -10,10 +10,181 @@ from corr.c01 import fmt_optpair, fmt_optlist, cbrt_oracle
 META = dict(
     trusted_base=['float cube root of FactorWithGuess is an oracle value passed to the model'],
     assumptions=[
-        'Fermat clause proved exactly (fermat_exact). Equal-high/low-bits, small-upper-difference and '
-        'unseeded-PRNG clauses: exact one-step success condition + soundness proved; that the families '
-        'always reach that condition is NOT proved — it is searched on the implementation every run',
+        'Fermat clause proved exactly (fermat_exact). Equal-high/low-bits clause: hlbe_complete(_sharp).',
+        'Small-upper-difference and unseeded-PRNG clauses: completeness PROVED (Props/C04Guess.lean: '
+        'fwg_complete, sud_complete, unseeded_complete) with "next prime" replaced by the gap bound '
+        'GapOK(L, g): (g+2)^2 * 2^12 <= 2^(L/2), for every float-oracle value with CbrtOK '
+        '(n <= 8 bound^3, 16 bound^3 <= 81 n). Planted members at g = 0 / 2^12 / just below the gap '
+        'bound are evaluated on the implementation every run (always-predicates, tags gap:*); members '
+        'beyond the bound are sampled for statistics only (tags beyond:*). That real prime gaps are '
+        'below the bound is number-theoretic folklore, not proved',
     ])
+
+
+def gap_ok(Lb, g):
+  """GapOK of Props/C04Guess.lean."""
+  return (g + 2) ** 2 * 2 ** 12 <= 2 ** (Lb // 2)
+
+
+def gap_bound(Lb):
+  return 2 ** (Lb // 4 - 6) - 2
+
+
+def cbrt_ok(n):
+  """CbrtOK of Proofs/FwgCompleteFamilies.lean on the REAL float value."""
+  shift = max(0, n.bit_length() // 3 - 52)
+  bnd = cbrt_oracle(n) << shift
+  return n <= 8 * bnd ** 3 and 16 * bnd ** 3 <= 81 * n
+
+
+def proper_split_pred(what, n, get, primes=None):
+  """the conclusion of the C04Guess theorems evaluated on the implementation."""
+  def pred():
+    if not cbrt_ok(n):
+      return '%s: the float cube root violates CbrtOK for n=%x' % (what, n)
+    r = get()
+    if not r or len(r) != 2:
+      return '%s: inside the proved region but not factored: n=%x (got %r)' % (what, n, r)
+    g, h = int(r[0]), int(r[1])
+    if not (1 < g < n and n % g == 0 and h == n // g):
+      return '%s: result %r is not a proper split of n=%x' % (what, r, n)
+    if primes is not None and sorted([g, h]) != sorted(primes):
+      return '%s: result %r is not the two primes of n=%x' % (what, r, n)
+    return None
+  return pred
+
+
+def guess_completeness(rep, rng, tier):
+  """Planted members of the two guess-based families at the edges of the PROVED region
+  (Props/C04Guess.lean), always-predicates on the implementation; beyond: statistics only."""
+  from paranoid_crypto.lib import rsa_util, rsa_single_checks as rs, special_case_factoring as scf
+  from paranoid_crypto.lib.data import default_storage, unseeded_rands
+  thorough = tier == 'thorough'
+
+  # ---- (0) FactorWithGuess itself, small sizes where the bound is nearly tight; P, Q primes or
+  # arbitrary L-bit numbers (the theorem needs no primality)
+  b = Batch('rsa.fwg')
+  for Lb in (32, 40, 64, 96, 128, 256) + ((384, 512) if thorough else ()):
+    E = gap_bound(Lb)
+    assert gap_ok(Lb, E) and not gap_ok(Lb, E + 2)
+    for kind in ('primes', 'any'):
+      for _ in range(6 if thorough else 2):
+        if kind == 'primes':
+          P, Q = gen_rsa.rprime(rng, Lb), gen_rsa.rprime(rng, Lb)
+        else:
+          P = rng.getrandbits(Lb) | (1 << (Lb - 1))
+          Q = rng.getrandbits(Lb) | (1 << (Lb - 1))
+        n = P * Q
+        for e in sorted({0, 1, -1, E, -E, E - 1, rng.randint(-E, E)}):
+          p0 = P + e
+          get = lambda n=n, p0=p0: scf.FactorWithGuess(gmpy2.mpz(n), gmpy2.mpz(p0))
+          r = call(fmt_optlist, *[scf.FactorWithGuess, gmpy2.mpz(n), gmpy2.mpz(p0)])
+          b.add('rsa.fwg %s %s %s' % (H(n), H(p0), H(cbrt_oracle(n))), r,
+                tag='gap:%s:%s' % (kind, 'found' if 'none' not in r else 'NONE'),
+                pred=proper_split_pred('fwg_complete L=%d e=%d' % (Lb, e), n, get,
+                                       [P, Q] if kind == 'primes' and P != Q else None),
+                always=True)
+        for k in (0, 2, 4):  # beyond the proved region: statistics only
+          e = rng.choice([-1, 1]) * 2 ** (Lb // 3 - 1 + k)
+          if abs(e) <= E or P + e <= 0:
+            continue
+          r = call(fmt_optlist, scf.FactorWithGuess, gmpy2.mpz(n), gmpy2.mpz(P + e))
+          b.add('rsa.fwg %s %s %s' % (H(n), H(P + e), H(cbrt_oracle(n))), r,
+                tag='beyond:2^(L/3%+d):%s' % (k - 1, 'found' if 'none' not in r else 'none'))
+  rep.absorb(b, b.run())
+
+  # ---- (A) CheckSmallUpperDifferences: q = next_prime(p + D + off), off at the edges
+  b = Batch('chk.sud')
+  chk = rs.CheckSmallUpperDifferences()
+  for Lp in (384, 512) + ((1024, 2048) if thorough else ()):
+    G = gap_bound(Lp)
+    edges = [('g0', 0), ('small', 2 ** 12), ('nearG', G - 2 ** 20), ('beyond', 2 ** (Lp // 3 + 2))]
+    for dexp in (100, 128, 160, 256, 2, 3):
+      for label, off in edges:
+        for _ in range(40):
+          p = gen_rsa.rprime(rng, Lp)
+          q = int(gmpy2.next_prime(p + 2 ** (Lp - dexp) + off))
+          if q.bit_length() == Lp:
+            break
+        else:
+          continue
+        g = q - p - 2 ** (Lp - dexp)
+        n = p * q
+        v = art.fmt_verdict(chk, n)
+        inside = gap_ok(Lp, g)
+        assert inside == (label != 'beyond')
+
+        def pred(n=n, p=p, q=q, v=v, dexp=dexp, Lp=Lp, g=g):
+          if not cbrt_ok(n):
+            return 'sud_complete: the float cube root violates CbrtOK for n=%x' % n
+          want = 'ok 1 %s 0' % L(sorted([p, q]))
+          if v != want:
+            return ('sud_complete: q = p + 2^(L-%d) + g, L=%d, g=%d inside the gap bound, n=%x not '
+                    'factored into its primes (got %s)' % (dexp, Lp, g, n, v))
+          return None
+        if inside:
+          b.add('chk.sud %s %s' % (H(n), H(cbrt_oracle(n))), v, tag='gap:%s:D=2^(L-%d):%s' % (label, dexp, v[:4]),
+                pred=pred, always=True, canon=art.sort_model_verdict)
+        else:
+          b.add('chk.sud %s %s' % (H(n), H(cbrt_oracle(n))), v, tag='beyond:%s' % v[:4],
+                canon=art.sort_model_verdict)
+  rep.absorb(b, b.run())
+
+  # ---- (B) CheckUnseededRand: p = next_prime(x + off) for a tried candidate x
+  b = Batch('chk.unseeded')
+  chk = rs.CheckUnseededRand()
+  st = default_storage.DefaultStorage()
+  for psize in sorted(unseeded_rands.size_unseeded_map.keys()):
+    if psize > 1024 and not thorough:
+      continue
+    lst = sorted(st.GetUnseededRands(psize))
+    msb1 = 2 ** (psize - 1)
+    msb11 = msb1 | 2 ** (psize - 2)
+    cands = []
+    for x in st.GetUnseededRands(psize):
+      cands.extend(list({x, x | msb1, x | msb11}))
+    G = gap_bound(psize)
+    picks = rng.sample(lst, 6 if thorough else 2)
+    for i, x0 in enumerate(picks):
+      x = [x0, x0 | msb1, x0 | msb11][i % 3]
+      if x.bit_length() != psize:
+        x = x0 | msb1
+      for label, off in (('g0', 0), ('small', 2 ** 12), ('nearG', G - 2 ** 20), ('beyond', 2 ** (psize // 3 + 2))):
+        p = int(gmpy2.next_prime(x + off))
+        q = gen_rsa.rprime(rng, psize)
+        n = p * q
+        if p.bit_length() != psize or p == q:
+          continue
+        inside = gap_ok(psize, p - x)
+        v = art.fmt_verdict(chk, n)
+
+        def pred(n=n, p=p, q=q, v=v, x=x, psize=psize):
+          if not cbrt_ok(n):
+            return 'unseeded_complete: the float cube root violates CbrtOK for n=%x' % n
+          want = 'ok 1 %s 0' % L(sorted([p, q]))
+          if v != want:
+            return ('unseeded_complete: prime p with 0 <= p - x = %d inside the gap bound of the tried '
+                    'candidate x=%x (L=%d), n=%x not factored into its primes (got %s)'
+                    % (p - x, x, psize, n, v))
+          return None
+        if inside:
+          b.add('chk.unseeded %s %s %s' % (H(n), H(cbrt_oracle(n)), L(cands)), v,
+                tag='gap:%s:%s' % (label, v[:4]), pred=pred, always=True, canon=art.sort_model_verdict)
+        else:
+          b.add('chk.unseeded %s %s %s' % (H(n), H(cbrt_oracle(n)), L(cands)), v,
+                tag='beyond:%s' % v[:4], canon=art.sort_model_verdict)
+  rep.absorb(b, b.run())
+
+  # ---- the oracle hypothesis on the real float expression, all documented sizes
+  bad = 0
+  for bits in (128, 767, 768, 1024, 2047, 2048, 3072, 4096, 8192):
+    for _ in range(50):
+      n = rng.getrandbits(bits) | (1 << (bits - 1)) | 1
+      if not cbrt_ok(n):
+        bad += 1
+        rep.violations.append(dict(op='cbrt-oracle', line=H(n), what='CbrtOK fails for n=%x' % n,
+                                   impl='', model='', info=None))
+  rep.extra['cbrt_ok_failures'] = bad
 
 
 def correspondence(rep, rng, tier):
@@ -169,3 +340,4 @@ def correspondence(rep, rng, tier):
             canon=art.sort_model_verdict)
   rep.absorb(b, b.run())
   rep.absorb(bv, bv.run())
+  guess_completeness(rep, rng, tier)
